@@ -47,6 +47,17 @@ def run(tier, only=None):
             seen.add(k)
             uniq.append(s)
     scs = uniq
+    total = len(scs)
+    exhaustive = True
+    if tier == "quick" and not only:
+        # every scenario without an earlier use and with the two basic metadata settings (the original space), and a
+        # seeded sample of the rest; the thorough tier runs them all
+        import random
+        rnd = random.Random(common.seed())
+        core = [s for s in scs if s["prior"] == "none" and s["md"] in ("absent", "present")]
+        rest = [s for s in scs if not (s["prior"] == "none" and s["md"] in ("absent", "present"))]
+        scs = core + rnd.sample(rest, min(len(rest), 1600))
+        exhaustive = False
     if only:
         scs = only
     work = common.scratch("verif.c17.")
@@ -70,9 +81,10 @@ def run(tier, only=None):
         "traces_validated_against_impl": len(recs),
         "evaluations": len(recs),
         "distinct_nontrivial": sum(1 for r in recs if r["calls"]),
-        "rule": "every scenario of spec/LocalRunReq.tla (8 file configurations x docker metadata x output directory x 3 backends x translation ok/fails x "
-                "5 container outcomes (one of them the real runner.sh of the package run in the C16 namespace sandbox on the volumes and command docker.run received) x 3 earlier uses of the same dataset object (none, a query with docker metadata that ran, one that failed) = %d), each in a fresh interpreter; non-trivial = the scenario reaches the container start" % len(scs),
-        "exhaustive": True,
+        "rule": "scenarios of spec/LocalRunReq.tla, all of them in the thorough tier, in the quick tier every scenario without an earlier use and with docker metadata absent / alone plus a seeded sample of 1600 of the others (8 file configurations x 5 metadata chains (docker metadata absent, alone, before / after a value-less declaration, with a job script) x output directory x 3 backends x translation ok/fails x "
+                "5 container outcomes (one of them the real runner.sh of the package run in the C16 namespace sandbox on the volumes and command docker.run received) x 4 earlier uses of the same dataset object (none, a query with docker metadata that ran, one that failed, this very query object executed once already) = %d), each in a fresh interpreter; non-trivial = the scenario reaches the container start" % len(scs),
+        "exhaustive": exhaustive,
+        "scenarios_enumerated": total,
         "raised": sum(1 for r in recs if r["raised"]),
         "returned": sum(1 for r in recs if r["returned"]),
         "samples": [recs[0], recs[len(recs) // 2]],
